@@ -314,6 +314,23 @@ func (r *Run) havocLoop(st *State, fr *Frame, li *LoopInfo) {
 			}
 		}
 	}
+	// ghost counters / call records may change in the loop as well
+	var cks []string
+	for k := range st.Counters {
+		cks = append(cks, k)
+	}
+	sort.Strings(cks)
+	for _, k := range cks {
+		nv := e.freshConst("cnt", SInt)
+		st.assume(App(SBool, ">=", nv, st.Counters[k]))
+		st.Counters[k] = nv
+	}
+	for k := range st.Ghost {
+		if strings.HasPrefix(k, "arg:") || strings.HasPrefix(k, "res:") || k == "rand.last" || strings.HasPrefix(k, "ctxerr.last:") {
+			delete(st.Ghost, k)
+		}
+	}
+	st.Facts["loophavoc"] = "1"
 	sort.Slice(cells, func(i, j int) bool { return cells[i].ID < cells[j].ID })
 	for _, c := range cells {
 		st.Cells[c] = e.freshVal(st, c.Typ, "loop_"+c.Name)
@@ -1252,6 +1269,14 @@ func (e *Engine) box(st *State, v Val, t types.Type) T {
 		}
 		if sv, ok := v.(*StructV); ok {
 			e.boxedStructs[b.S] = sv
+			for i := 0; i < sv.Typ.NumFields(); i++ {
+				f := sv.Typ.Field(i)
+				fso := e.sortOf(f.Type())
+				if ft, ok := sv.F[i].(T); ok && fso != "" && ft.So == fso {
+					fn := e.namedFun("unbox_"+tk+"_"+f.Name(), []Sort{SAny}, fso)
+					st.assume(Eq(App(fso, fn, b), ft))
+				}
+			}
 		}
 		return b
 	}
